@@ -58,6 +58,16 @@ func c17Check(c *Case) []Violation {
 	var vs []Violation
 	vs = append(vs, alteredReport(c, "C17", "fatigue", t, bs)...)
 	prev, next := t.prev, t.next
+	if mode == "real" {
+		// "a seeded u, a seeded sign": with the library's own generators the same request is blurred the same way again
+		for k := 0; k < 2; k++ {
+			t2 := lastTransition(req, script)
+			if t2.err != nil || t2.next.Canon() != next.Canon() {
+				vs = append(vs, viol(c, "C17/not-a-function-of-the-seed", "the same request (randomSeed %v) is blurred differently when it is applied again: %v vs %v", props["randomSeed"], t2.next.Canon(), next.Canon()))
+				break
+			}
+		}
+	}
 	if _, has := t.props["effectiveFatigueRatio"]; !has {
 		vs = append(vs, viol(c, "C17/ratio-not-reported", "the report carries no effectiveFatigueRatio (keys %v)", mapKeys(t.props)))
 	}
@@ -256,13 +266,19 @@ func c17Run(s *Shard) {
 			}
 		}
 	}
-	// real seeds: both directions occur
-	for seed := 0; seed < 256; seed++ {
+	// real seeds: both directions occur; seed 256 stands for "left out", 257.. for negative seeds
+	for seed := 0; seed < 260; seed++ {
 		if !s.Take() {
 			continue
 		}
 		root := rootRequest("weightedSum", true, false)
-		req := withBiases(root, []M{bias("fatigue", M{"function": "const", "params": M{"value": 0.25}, "randomSeed": seed})})
+		fp := M{"function": "const", "params": M{"value": 0.25}, "randomSeed": seed}
+		if seed == 256 {
+			delete(fp, "randomSeed")
+		} else if seed > 256 {
+			fp["randomSeed"] = 256 - seed
+		}
+		req := withBiases(root, []M{bias("fatigue", fp)})
 		c := &Case{Prop: "C17", Kind: "fatigue", Req: req, Params: M{"mode": "real", "group": "all"}}
 		s.Evals++
 		s.Begin(c)
